@@ -65,7 +65,7 @@ TIERS = {
     },
 }
 
-VIOLATION_KINDS = {"roundtrip_mismatch", "writer_mismatch", "hang", "panic", "crash", "open_refused", "alloc_unbounded",
+VIOLATION_KINDS = {"alloc_amplified", "roundtrip_mismatch", "writer_mismatch", "hang", "panic", "crash", "open_refused", "alloc_unbounded",
                    "fabricated_or_garbled", "lost_intact_command", "second_start_differs", "vector_codec"}
 SPEC_KINDS = {"spec_mismatch", "format_mismatch"}
 
@@ -161,7 +161,12 @@ def run_harness(binary, alpha_list, cases, opts, shards=None, timeout=3000):
     """Runs cases in short-lived processes. A process that dies (a panic in a goroutine spawned by the
     engine cannot be recovered) is attributed through its progress file and the rest of its chunk is re-run."""
     shards = shards or vlib.NCPU
-    d = vlib.scratch("c03-")
+    # data directories on tmpfs when there is one: engine.Open/Close fsync, thousands of times
+    if not os.environ.get("VERIF_SCRATCH") and os.path.isdir("/dev/shm") and os.access("/dev/shm", os.W_OK):
+        import tempfile
+        d = tempfile.mkdtemp(prefix="verif-c03-", dir="/dev/shm")
+    else:
+        d = vlib.scratch("c03-")
     merged = {"divergences": [], "errors": [], "field_bits": {}, "kinds": {}}
     try:
         per = max(1, min(250, (len(cases) + shards - 1) // shards))
